@@ -52,6 +52,12 @@ def _ia(fn, args):
     return InitialAssignment(fn=fn, args=list(args))
 
 
+def _derived(fn, args):
+    from mxlpy.types import Derived
+
+    return Derived(fn=fn, args=list(args))
+
+
 def mock(args, outputs, st):
     from mxlpy.surrogates.abstract import MockSurrogate
 
@@ -113,6 +119,7 @@ def ops():
     for nm in ("v3", "v1", "x"):
         op(f"add_reaction({nm})")(lambda m, ctx, i, nm=nm: m.add_reaction(nm, R.mass_action_1s, args=["y", "k2"], stoichiometry={"y": -1, "x": 1}))
     op("update_reaction(v1 stoich)")(lambda m, ctx, i: m.update_reaction("v1", stoichiometry={"x": -2, "z": 1}))
+    op("update_reaction(v2 stoich state dependent)")(lambda m, ctx, i: m.update_reaction("v2", stoichiometry={"y": -1, "z": _derived(R.mul, ["x", "k2"])}))
     op("update_reaction(v1 args)")(lambda m, ctx, i: m.update_reaction("v1", args=["y", "k2"]))
     op("update_reaction(v2 fn)")(lambda m, ctx, i: m.update_reaction("v2", fn=R.mass_action_2s, args=["x", "y", "k1"]))
     op("update_reaction(nope)")(lambda m, ctx, i: m.update_reaction("nope", args=["y", "k2"]))
@@ -233,7 +240,7 @@ def rebuild(m):
     return f
 
 
-def answers(m, ctx, tag):
+def answers(m, ctx, tag, again=False):
     """Query answers of a model: qname -> ('ok', {key: value}) | ('err', exception type name)."""
     out = {}
     state_syms = {}
@@ -255,6 +262,17 @@ def answers(m, ctx, tag):
     T = ctx.real("T")
     q("__call__(S,T)", lambda: dict(zip(names, m(T, [state_syms[v] for v in names]))))
     q("get_fluxes(S,T)", lambda: dict(m.get_fluxes(dict(state_syms), T)))
+    if again:
+        # asking must not change later answers: the read-only tables first, then the derivatives once more
+        for look in (lambda: m.get_stoichiometries(), lambda: [m.get_stoichiometries_of_variable(v) for v in names],
+                     lambda: m.get_unused_parameters(), lambda: m.get_raw_reactions(), lambda: m.get_derived_variables()):
+            try:
+                look()
+            except Exception:  # noqa: BLE001,S110
+                pass
+        q("get_right_hand_side|asked again", lambda: dict(m.get_right_hand_side()))
+        q("__call__(S,T)|asked again", lambda: dict(zip(names, m(T, [state_syms[v] for v in names]))))
+        q("get_args|asked again", lambda: dict(m.get_args(include_readouts=True)))
     return out
 
 
@@ -315,10 +333,10 @@ class History(Scenario):
         except Exception as e:  # noqa: BLE001
             ctx.true(f"the model's content can be rebuilt through the public API ({type(e).__name__}: {e})"[:160], False)
             return
-        got = answers(m, ctx, "edited")
+        got = answers(m, ctx, "edited", again=True)
         exp = answers(fresh, ctx, "fresh")
-        for qn in exp:
-            g, e = got[qn], exp[qn]
+        for qn in got:
+            g, e = got[qn], exp[qn.split("|")[0]]
             if e[0] == "err" or g[0] == "err":
                 ctx.true(f"{qn}: same outcome as a fresh model", g[0] == e[0] and (g[0] == "ok" or g[1] == e[1]), info=f"edited={g[0]}:{g[1] if g[0] == 'err' else ''} fresh={e[0]}:{e[1] if e[0] == 'err' else ''}")
                 continue
